@@ -49,6 +49,7 @@ type PSig struct {
 	RawName  string
 	GroupCnt int
 	Top      bool
+	TypeKind int // standard signals: 1 flag, 2 integer, 3 decimal, 0 custom; -1 otherwise
 }
 type PEnumVal struct {
 	Index int64
@@ -130,7 +131,7 @@ func walkSignal(sig acmelib.Signal, parent string, depth int, out *[]PSig, seen 
 	p := PSig{Name: ClearSpaces(sig.Name()), RawName: sig.Name(), Start: int64(sig.GetStartBit()), Parent: parent,
 		Desc: sig.Desc(), StartVal: sig.StartValue(), SendType: int64(sig.SendType()),
 		Attrs: walkAttrs(sig.AttributeAssignments()), Depth: depth, Top: depth == 0,
-		Scale: 1, Membership: []int64{}, Enum: []PEnumVal{}}
+		Scale: 1, Membership: []int64{}, Enum: []PEnumVal{}, TypeKind: -1}
 	if group >= 0 {
 		p.Membership = append(p.Membership, int64(group))
 	}
@@ -141,6 +142,7 @@ func walkSignal(sig acmelib.Signal, parent string, depth int, out *[]PSig, seen 
 		p.Size = int64(ss.GetSize())
 		t := ss.Type()
 		p.Signed, p.Scale, p.Offset, p.Min, p.Max = t.Signed(), t.Scale(), t.Offset(), t.Min(), t.Max()
+		p.TypeKind = int(t.Kind())
 		if u := ss.Unit(); u != nil {
 			p.Unit = u.Symbol()
 		}
